@@ -75,7 +75,7 @@ theorem C15_drop (f rv : Nat) (s s1 : NetState) (b : Bytes) (hopen : s.closed = 
     (b.length < 8 → (s1.node.frameBuf.unpack b).1 = s.node.frameBuf) := by
   have hq := (wp_any_iff _ _ _).1 (rfRead_quiet f s hopen hcur hrx) (some b) s1 hread
   refine ⟨hq.air, hq.txf, hq.queue, hq.nextId, ?_, ?_⟩
-  · rw [netUpdate, nexec_bind, hread]
+  · rw [netUpdate, nexec_bind7, hread]
     simp only
     have hc : (!(s1.node.frameBuf.unpack b).2 || !isValid (s1.node.frameBuf.unpack b).1.header.toNode
         || !isValid (s1.node.frameBuf.unpack b).1.header.fromNode) = true := by
@@ -85,7 +85,7 @@ theorem C15_drop (f rv : Nat) (s s1 : NetState) (b : Bytes) (hopen : s.closed = 
         simp [this]
       · simp [h]
       · simp [h]
-    simp only [nexec_bind, nexec_getNode, nexec_modNode]
+    simp only [nexec_bind7, nexec_getNode7, nexec_modNode7]
     rw [if_pos hc]
   · intro hlen
     rw [← hq.frameBuf]
@@ -291,7 +291,7 @@ theorem C15_history (C : L3Contracts) (cs : List Call) (s : NetState) (hl : Node
       obtain ⟨r, s1, h1, l1, t1, d1, m1⟩ := C15_total_net_fuel C s hl hi hd (by omega)
       have h1' : nexec (Call.run .update) s = (.ok (), s1) := by
         show nexec (apiUpdate >>= fun _ => pure ()) s = _
-        rw [nexec_bind, h1]
+        rw [nexec_bind7, h1]
         rfl
       exact step s1 h1' l1 t1 d1 (by omega)
     | envArrive due pipe data =>
